@@ -155,7 +155,7 @@ class OutFP:
             else:
                 self.spans.append((self.pos, data))
         self.pos += n
-        if self.pos > self.end:
+        if n > 0 and self.pos > self.end:
             self.end = self.pos
         return n
 
